@@ -59,7 +59,7 @@ Definition strict_check_unsigned (now atts valid_until : Z) : bool :=
 (* which of the two the source tree has: false = through Timestamp.Time() (int64), true = unsigned.
    Tied to the source by Gen/GenC12.v (C12_constants_match_source): when the repair of F62 is merged
    that proof breaks and this constant is to be flipped; every theorem is stated for both values. *)
-Definition strict_unsigned : bool := false.
+Definition strict_unsigned : bool := true.
 
 Definition validity_check (rl : rule) (now atts valid_until : Z) : bool :=
   match rl with
@@ -123,7 +123,7 @@ Definition obj_or_null (j : json) : bool :=
 (* which decoding the source tree has: false = the whole signatures object is decoded (every entry
    must be an object or null), true = only the entry of the named entity is (repair made for C06);
    tied to the source by Gen/GenC12.v (C12_constants_match_source) *)
-Definition signatures_per_entry : bool := false.
+Definition signatures_per_entry : bool := true.
 
 Definition list_key_ids (server msg : bytes) : option (list bytes) :=
   match parse_json msg with
